@@ -125,9 +125,17 @@ Sender3T = ExtObj("frequenz.channels.Sender", methods=dict(send=dict(
                                        " and rx3.last_ts == args[0].timestamp) else 1)"})), n_sent=Int, n_mixed=Int)
 
 
+_RX_HAVOC = {"rx1.next_ts": Time, "rx1.last_ts": Time, "rx2.next_ts": Time, "rx2.last_ts": Time,
+             "rx3.next_ts": Time, "rx3.last_ts": Time,
+             "rx1.calls": OpaqueT("log"), "rx2.calls": OpaqueT("log"), "rx3.calls": OpaqueT("log"),
+             "rx1.results": OpaqueT("log"), "rx2.results": OpaqueT("log"), "rx3.results": OpaqueT("log")}
+
+
 @contract(f"{ENG}:FormulaEngine3Phase._run")
 class ThreePhaseRun:
-    """Every 3-phase sample is built from per-phase samples of ONE timestamp."""
+    """Every 3-phase sample is built from per-phase samples of ONE timestamp - also when the three per-phase streams
+    start on different timestamps (the samples held are always the latest read of their streams, and a message is
+    only built once their timestamps agree)."""
     self_shape = Obj(f"{ENG}:FormulaEngine3Phase", _name=OpaqueT("name"),
                      _channel=ExtObj("Broadcast", methods=dict(new_sender=dict(returns="sender"))),
                      _streams=FixedList(ExtObj("FormulaEngine", methods=dict(new_receiver=dict(returns="rx1"))),
@@ -137,16 +145,21 @@ class ThreePhaseRun:
     ghost = dict(rx1=PhaseRxT, rx2=PhaseRxT, rx3=PhaseRxT, sender=Sender3T)
     modifies = ["rx1", "rx2", "rx3", "sender", "self._channel", "self._streams"]
     requires = dict(fresh="sender.n_sent == 0 and sender.n_mixed == 0")
-    loops = {"while True": dict(
-        havoc_fields={"rx1.next_ts": Time, "rx1.last_ts": Time, "rx2.next_ts": Time, "rx2.last_ts": Time,
-                      "rx3.next_ts": Time, "rx3.last_ts": Time, "sender.n_sent": Int, "sender.n_mixed": Int,
-                      "rx1.calls": OpaqueT("log"), "rx2.calls": OpaqueT("log"), "rx3.calls": OpaqueT("log"),
-                      "rx1.results": OpaqueT("log"), "rx2.results": OpaqueT("log"), "rx3.results": OpaqueT("log"),
-                      "sender.calls": OpaqueT("log"), "sender.results": OpaqueT("log")},
-        invariant=dict(
-            never_mixes_timestamps="sender.n_mixed == 0",
-            phases_in_step="rx1.next_ts == rx2.next_ts and rx2.next_ts == rx3.next_ts",
-        ))}
+    loops = {
+        "while True": dict(
+            havoc_fields=dict(_RX_HAVOC, **{"sender.n_sent": Int, "sender.n_mixed": Int,
+                                            "sender.calls": OpaqueT("log"), "sender.results": OpaqueT("log")}),
+            invariant=dict(never_mixes_timestamps="sender.n_mixed == 0")),
+        # the alignment loop: skip ahead on the lagging streams
+        "while not ( phase_1.timestamp == phase_2.timestamp and phase_2.timestamp == phase_3.timestamp )": dict(
+            havoc_fields=_RX_HAVOC,
+            havoc={"phase_1": SampleT, "phase_2": SampleT, "phase_3": SampleT},
+            invariant=dict(
+                held_samples_are_the_latest_read="phase_1.timestamp == rx1.last_ts and phase_2.timestamp == rx2.last_ts"
+                                                 " and phase_3.timestamp == rx3.last_ts",
+                nothing_sent_meanwhile="sender.n_mixed == 0",
+            )),
+    }
     ensures = dict(never_mixes_timestamps="sender.n_mixed == 0")
 
 
